@@ -5,6 +5,8 @@ import (
 	"go/token"
 	"go/types"
 
+	"golang.org/x/tools/go/cfg"
+
 	"gnoverif/engine"
 )
 
@@ -22,6 +24,7 @@ func init() {
 		Mutant{"reap-off-by-one", "tm2/pkg/bft/mempool/clist_mempool.go", "len(txs) < maxVal;", "len(txs) <= maxVal;", "reap-count-bound"},
 		Mutant{"gas-limit-dropped", "tm2/pkg/bft/mempool/clist_mempool.go", "if maxGas > -1 && newTotalGas > maxGas {", "if maxGas > -1 && newTotalGas > maxGas && false {", "reap-limit"},
 		Mutant{"update-skips-failed", "tm2/pkg/bft/mempool/clist_mempool.go", "if e, ok := mem.txsMap.Load(txKey(tx)); ok {\n\t\t\tmem.removeTx(tx, e.(*clist.CElement), false)", "if e, ok := mem.txsMap.Load(txKey(tx)); ok && deliverTxResponses[i].Error == nil {\n\t\t\tmem.removeTx(tx, e.(*clist.CElement), false)", "update-removes"},
+		Mutant{"update-skips-uncached", "tm2/pkg/bft/mempool/clist_mempool.go", "			_ = mem.cache.Push(tx)\n", "			if mem.cache.Push(tx) {\n\t\t\t\tcontinue\n\t\t\t}\n", "every committed tx is looked up"},
 		Mutant{"cache-check-dropped", "tm2/pkg/bft/mempool/clist_mempool.go", "if !mem.cache.Push(tx) {", "if !mem.cache.Push(tx) && txInfo.SenderID == 77 {", "admission-gate"},
 		Mutant{"reap-unlocked", "tm2/pkg/bft/mempool/clist_mempool.go", "func (mem *CListMempool) ReapMaxTxs(maxVal int) types.Txs {\n\tmem.mtx.Lock()\n\tdefer mem.mtx.Unlock()", "func (mem *CListMempool) ReapMaxTxs(maxVal int) types.Txs {", "holds-lock"},
 	)
@@ -133,6 +136,34 @@ func c40(c *engine.Ctx) {
 			}
 			c.Check("update-removes", f.Name+" removeTx", s.Pos(), ok, why)
 		}
+		// every iteration over the committed txs performs the presence lookup:
+		// no path through the loop body reaches the next iteration (continue,
+		// fall-through) without passing txsMap.Load.
+		engine.InspectBody(f, func(n ast.Node) {
+			rs, isR := n.(*ast.RangeStmt)
+			if !isR || engine.ObjOf(info, rs.X) != paramObj(f, 1) {
+				return
+			}
+			var head, entry *cfg.Block
+			for _, b := range g.CFG.Blocks {
+				if b.Stmt == ast.Stmt(rs) && b.Kind == cfg.KindRangeLoop {
+					head = b
+				}
+				if b.Stmt == ast.Stmt(rs) && b.Kind == cfg.KindRangeBody {
+					entry = b
+				}
+			}
+			avoid := map[*cfg.Block]bool{}
+			nLoad := 0
+			for _, s := range f.Calls() {
+				if sel, ok := s.Call.Fun.(*ast.SelectorExpr); ok && sel.Sel.Name == "Load" && engine.MentionsName(sel.X, "txsMap") && containsExpr(rs.Body, s.Node) {
+					avoid[s.Block] = true
+					nLoad++
+				}
+			}
+			ok := head != nil && entry != nil && nLoad > 0 && (avoid[entry] || !g.Reach(entry, head, avoid))
+			c.Check("update-removes", f.Name+" every committed tx is looked up", rs.Pos(), ok, "some path through the loop over committed txs skips the txsMap.Load/removeTx step (e.g. an early continue): a committed tx could stay in the mempool")
+		})
 	}
 
 	// (5) admission gates.
